@@ -6,6 +6,7 @@ R4 the line/column scan walks characters."""
 from ..core import callee_of, expr_walk, expr_str, return_defs, short, op_place, MissingAnchor
 from .. import awrite
 from ..pathq import edge_guards, error_blocks
+from ..zone import strip as zstrip
 from ..pathq import bool_branch, exists_path_avoiding, blocks_after, natural_loops, try_continue_block
 
 EXPLANATION = (
@@ -28,7 +29,7 @@ ASSUMPTIONS = ["rustc MIR / Instance resolution correct", "Vec::push/truncate be
 
 def _plain_count(e, depth=0):
     """phi(const | previous + 1 | ...): starts at / is reset to a constant and grows by one"""
-    from ..zone import strip as zstrip
+    pass
     e = zstrip(e)
     if not isinstance(e, tuple) or depth > 6:
         return False
@@ -143,6 +144,25 @@ def run(rep, facts, tier):
                     '%s drops source texts on a path that keeps the code compiled from them (bb%s): a later failure inside that code has no '
                     'source, line or column to report' % (short(fn), '->bb'.join(map(str, (p or [])[:8]))), fn, w['at'])
     rep.floor('C17.R2 shrinking writes to sources', n_src, 1)
+    # ... and as long as they are being read: a cut of the registry that is not also a cut of the input stack (the purge at the
+    # close of a meta block) has to spare the sources that still have a live input - its bound depends on State.input
+    for fn, ws in sorted(W.items()):
+        f = V(fn)
+        sw = [w for w in ws if w['field'][0] == 'sources' and w['how'].startswith('call:shrink:truncate')]
+        it = {w['bb'] for w in ws if w['field'][0] == 'input' and w['how'].startswith('call:shrink')}
+        for w in sw:
+            if any(f.dominates(b_, w['bb']) or f.dominates(w['bb'], b_) for b_ in it):
+                continue          # a roll-back: the unread text goes as well
+            bound = f.expr_of_operand(w['term']['args'][1])
+            # the bound is chosen by a scan over the inputs: they are read on the way to the cut (the choice itself is control
+            # flow - `if some lexer still reads this source { keep = i + 1 }` - so the bound's expression need not name them)
+            reads_in = [ev['bb'] for ev in awrite.field_events(fx, f, {'state::State': {'input'}}) if not ev['mut']]
+            live = any(w['bb'] in blocks_after(f, rb) for rb in reads_in) and \
+                any(isinstance(x, tuple) and x[0] == 'phi' for x in [zstrip(bound)] + list(expr_walk(bound)))
+            rep.add('C17.R2', 'C17.R2:%s:sources-cut-spares-live-inputs' % fn, live,
+                    'the bound of the cut is computed from the inputs still being read' if live else
+                    '%s cuts the source registry back to %s while the inputs stay: a source that is still being read (an `include` inside an enum) '
+                    'is forgotten, and errors further down that file have no location' % (short(fn), expr_str(bound, -8)[:40]), fn, w['at'])
     # which source a token belongs to is a question of identity: its parent IS the interned buffer.  A comparison of the text
     # names the oldest source with the same content (`a b /` submitted twice: the second failure was put in <buffer#1>)
     n_id = 0
@@ -328,7 +348,7 @@ def run(rep, facts, tier):
     other = [d for d in drivers if d not in chars]
     # line and column are COUNTS of what the character iterator yielded (0, +1 per step); a difference of byte offsets
     # (`tok_start - start`) is a column only for ASCII text
-    from ..zone import strip as zstrip
+    pass
     adt = fx.adts.get('lex::TokenLocation') or {}
     fields = [fl['name'] for v in adt.get('variants', [])[:1] for fl in v['fields']]
     n_cnt = 0
